@@ -19,7 +19,7 @@ EXPLANATION = (
 
 def run(tier: str) -> Check:
     check = Check("C08", tier, EXPLANATION)
-    check.rules = ["R1", "R2", "K2", "SPEC-attempt", "SPEC-result", "SPEC-live", "SHAPE", "R7", "TAGS", "RULE-PAIR", "MASK-AXES"]
+    check.rules = ["R1", "R2", "K2", "SPEC-attempt", "SPEC-result", "SPEC-live", "SHAPE", "R7", "TAGS", "RULE-PAIR", "MASK-AXES", "REWRITE"]
     check.assumptions = [
         "the behaviour on the bundled grammars is claimed through the operator induction, not analysed per grammar",
         "whether an optimizer pass applies to the rewritten shape is C02's subject",
@@ -28,4 +28,19 @@ def run(tier: str) -> Check:
     from ..masks import apply as mask_axes
 
     mask_axes(check, repo, "MASK-AXES", 5)  # a floor against vacuity, not a census: consolidating duplicated tests is a legitimate edit
+    # the property itself on model rule tables: every rewrite of the marked site, interpreted and generated
+    from .. import ops
+    from ..core import Finding
+    from ..rewritesem import check_rewrites
+
+    con = "src/pest/state.py::ParserState.checkpoint/ok/restore + src/pest/grammar/rule.py::Rule.parse/generate"
+    n, bad = check_rewrites(repo, "C08 REWRITE", ops.modifier_masks(repo), tier == "thorough")
+    check.count("rewrite_model_points", n)
+    check.oblige("REWRITE", con, f"on {n} (model table, rewrite) points the rewritten grammar gives the result of the original, interpreted and generated", True, sample=True)
+    cats: dict[str, list[str]] = {}
+    for cat, msg in bad:
+        cats.setdefault(cat, []).append(msg)
+    for cat, msgs in sorted(cats.items()):
+        check.oblige("REWRITE", con, cat, False, sample=True, finding=Finding("REWRITE", con, cat, f"{cat}: e.g. {msgs[0]} ({len(msgs)} of {n} points)", {"witness": msgs[0], "more": msgs[1:3]}))
+    check.floor("rewrite_model_points", 400)
     return check
